@@ -285,7 +285,7 @@ pub fn corpus_c15(tier: Tier, seed: u64) -> Vec<(usize, Layout)> {
         f.array = Some(ArrayDecl { count: k, stride: None, colon: false });
         let mut l = crate::corpus::lay(b, vec![f]);
         if (k * w) < b {
-            l.default = Some(DefaultDecl { value: 0, named_const: false, radix: 10 });
+            l.default = Some(DefaultDecl { value: 0, named_const: false, radix: 10, const_name: None });
         }
         v.push(l);
     }
